@@ -131,9 +131,7 @@ class Module:
             raise AnalysisError(f"syntax error in {relpath}: {exc}") from exc
         # make helpers / constants / locals that the reference tree does not
         # have transparent (see sa/normalize.py); identity on the reference tree
-        from .normalize import normalize_module
-        self.normalized = normalize_module(self.tree, name)
-        set_parents(self.tree)
+        self.normalized = {}
         self.functions = {}
         self.classes = {}
         self.imports = {}  # local name -> ("module", modname)|("symbol", modname, sym)
@@ -181,6 +179,14 @@ class Repo:
         for rel, src in self.overlay.items():
             if rel not in seen:
                 self._add_module(rel, src)
+        # make helpers / constants / locals that the reference tree does not
+        # have transparent (see sa/normalize.py); identity on the reference tree
+        from .normalize import normalize_module, compute_pure_names, compute_tuple_sizes
+        compute_pure_names([m.tree for m in self.modules.values()])
+        compute_tuple_sizes([m.tree for m in self.modules.values()])
+        for mod in self.modules.values():
+            mod.normalized = normalize_module(mod.tree, mod.name)
+            set_parents(mod.tree)
         for mod in self.modules.values():
             self._index_module(mod)
         self._resolve_reexports()
